@@ -200,6 +200,36 @@ def attempt(sim: BuilderSim, a, kind):
     return None
 
 
+def recycle_function_index(sim, a, kind):
+    """History for the call faults: a monomorphic function is declared and called, the call and the declaration are
+    deleted, and a polymorphic function (or a constant) is created next, taking over the freed index."""
+    t = T()
+    ch = sim.ctx.ch
+    m = sim.module
+    sig = t.tys.PolyFuncType([], t.tys.FunctionType([], [t.B]))
+    f = m.declare_function("recycled_f", sig)
+    call_n = a.b.call(f)
+    sim.ctx.ev(a.id, "declare+call", "recycled_f", f"n{f.idx},n{call_n.idx}")
+    sim.hugr.delete_node(call_n)
+    sim.hugr.delete_node(f)
+    sim.ctx.probe("callee_index_recycled")
+    if kind == "poly-no-instantiation":
+        bd = t.tys.TypeBound.Copyable
+        psig = t.tys.PolyFuncType([t.tys.TypeTypeParam(bd)], t.tys.FunctionType([], [t.tys.Variable(0, bd)]))
+        g = m.declare_function("recycled_g", psig)
+        sim.ctx.ev(a.id, "delete both; declare poly", "recycled_g", f"n{g.idx}")
+        if g.idx != f.idx:
+            return None
+        if ch.coin(1, 2, "fault-load"):
+            return (lambda: a.b.load_function(g)), ["NoConcreteFunc"], "load_function(poly at a recycled index) without instantiation"
+        return (lambda: a.b.call(g)), ["NoConcreteFunc"], "call(poly at a recycled index) without instantiation"
+    c = m.add_const(t.val.TRUE)
+    sim.ctx.ev(a.id, "delete both; add const", None, f"n{c.idx}")
+    if c.idx != f.idx:
+        return None
+    return (lambda: a.b.call(c)), None, "call(<Const at the recycled index of a function>)"
+
+
 def run(ctx):
     ch = ctx.ch
     kind = KINDS[ch.draw(len(KINDS), "fault-kind")]
@@ -237,6 +267,11 @@ def run(ctx):
         if att is None:
             return False
         fn, expected, desc = att
+        if kind in ("poly-no-instantiation", "call-non-function") and isinstance(a, Actor) and sim.module is not None \
+                and ch.coin(1, 3, "after-index-reuse"):
+            recycled = recycle_function_index(sim, a, kind)
+            if recycled is not None:
+                fn, expected, desc = recycled
         state["done"] = True
         ctx.fault(kind)
         ctx.steps += 1
@@ -252,6 +287,36 @@ def run(ctx):
             ctx.violate("accepted", kind, {"call": desc, "actor": getattr(a, "kind", type(a).__name__)})
         elif expected is not None and not any(x in mro for x in expected):
             ctx.violate("wrong-exception", f"{kind}:{outcome}", {"call": desc, "expected": expected})
+        if not ctx.violations and outcome != "returned" and ch.coin(1, 3, "second-fault"):
+            # "refuse instead of recording": the refused call must not have recorded anything that makes a later
+            # inconsistent call acceptable.  Inject one more fault of a conditional / exit kind on the same state.
+            for kind2 in ("conditional-exit-unbuilt", "case-built-twice", "case-index-out-of-range", "exit-type-mismatch", "int-wire-untracked-builder"):
+                if kind2 == kind and kind2 != "conditional-exit-unbuilt":
+                    continue
+                att2 = None
+                for other in sim.actors:
+                    if not getattr(other, "closed", False) or kind2 == "exit-type-mismatch":
+                        try:
+                            att2 = attempt(sim, other, kind2)
+                        except Exception:  # noqa: BLE001  (the first fault may have left the builder unusable)
+                            att2 = None
+                        if att2 is not None:
+                            a2 = other
+                            break
+                if att2 is None:
+                    continue
+                fn2, exp2, desc2 = att2
+                ctx.fault("second:" + kind2)
+                try:
+                    fn2()
+                    out2 = "returned"
+                except Exception as e2:  # noqa: BLE001
+                    out2 = type(e2).__name__
+                ctx.ev(a2.id, "FAULT2:" + kind2, desc2, out2, fault=kind2)
+                ctx.checked("refuse-after-refusal")
+                if out2 == "returned":
+                    ctx.violate("accepted", f"{kind2}:after-a-refused-{kind}", {"call": desc2})
+                break
         return True
 
     try:
